@@ -22,7 +22,7 @@ func Harness_C06_pubsub_one() {
 	}()
 	verifFinally(func() {
 		verifAssert(sent == 1 && received == 1 && got == 7, "send_reaches_the_standing_subscriber_once")
-		verifAssert(ackedAtReturn >= 0, "send_returns")
+		verifAssert(ackedAtReturn == 1, "send_returns_only_after_every_receiver_acknowledged_with_wait")
 		verifAssert(x.Add(0) == 1, "subscriber_count_unchanged")
 		verifReach("quiescent")
 	})
